@@ -9,4 +9,4 @@ def config(cfg):
 
 
 def contracts():
-    return extra.ctor_contracts()
+    return extra.ctor_contracts() + extra.renderer_contracts()
